@@ -2,7 +2,7 @@
    partitioning (splitUniform / splitEqual / splitNonUniform) is undone by mergeRanks,
    flattenRanks is undone by unflattenRanks, swizzling by the identity order is the identity.
    All statements are about the very definitions the interpreter runs (C02, C03). *)
-From Coq Require Import ZArith List Bool Lia ZifyBool Sorted.
+From Coq Require Import ZArith List Bool Lia ZifyBool Sorted Permutation.
 Require Import TV.Model.Rt TV.Proofs.OccLaws TV.Proofs.SplitArith.
 Import ListNotations.
 Open Scope Z_scope.
@@ -953,3 +953,307 @@ Qed.
 
 Example tswizzle_id_ex : tswizzle (seq 0 2) (TNode ex_trie2) = TNode ex_trie2.
 Proof. apply tswizzle_id. left. exact ex_trie2_wft. Qed.
+
+(* ---- swizzleRanks by an arbitrary permutation: denotation ---- *)
+(* the payload at a path: follow alookup along the coordinates *)
+Fixpoint tlookup (p : list value) (t : trie) : option value :=
+  match p, t with
+  | [], TLeaf v => Some v
+  | c :: p', TNode l => match alookup c l with Some s => tlookup p' s | None => None end
+  | _, _ => None
+  end.
+Definition zl (zs : list Z) (t : trie) : option value := tlookup (map VInt zs) t.
+
+Lemma zl_cons c zs l : zl (c :: zs) (TNode l) = match alookup (VInt c) l with Some s => zl zs s | None => None end.
+Proof. reflexivity. Qed.
+Lemma zl_empty zs : zl zs (TNode []) = None.
+Proof. destruct zs; reflexivity. Qed.
+
+(* -- ainsert / alookup on integer fibers, in general position -- *)
+Lemma int_sorted_cons {A} (ct : value * A) l : int_key ct -> int_sorted l -> (forall b, In b l -> kz ct < kz b) -> int_sorted (ct :: l).
+Proof.
+  intros Hk [H1 H2] Hlt. split; constructor; try assumption. rewrite Forall_forall. exact Hlt.
+Qed.
+
+Ltac int_head Hk ct z y := inversion Hk as [|? ? [z Hz__] Hk']; subst; destruct ct as [c__ y]; cbn [fst] in Hz__; subst c__.
+
+Lemma alookup_ainsert {A} c d x (l : list (value * A)) : Forall int_key l ->
+  alookup (VInt d) (ainsert (VInt c) x l) = if d =? c then Some x else alookup (VInt d) l.
+Proof.
+  induction l as [|ct l IH]; intros Hk.
+  - cbn [ainsert alookup]. rewrite veqb_int. reflexivity.
+  - inversion Hk as [|? ? [z Hz] Hk']; subst. destruct ct as [c' y]. cbn [fst] in Hz. subst c'. cbn [ainsert].
+    rewrite vltb_int, veqb_int. destruct (Z.ltb_spec c z).
+    + cbn [alookup]. rewrite !veqb_int. reflexivity.
+    + destruct (Z.eqb_spec c z).
+      * subst z. cbn [alookup]. rewrite !veqb_int. destruct (d =? c); reflexivity.
+      * cbn [alookup]. rewrite veqb_int, IH by exact Hk'. destruct (Z.eqb_spec d z); destruct (Z.eqb_spec d c); try reflexivity; lia.
+Qed.
+
+Lemma ainsert_In {A} c x (l : list (value * A)) y : Forall int_key l ->
+  In y (ainsert (VInt c) x l) -> y = (VInt c, x) \/ In y l.
+Proof.
+  induction l as [|ct l IH]; intros Hk H.
+  - cbn in H. destruct H as [<-|[]]. left. reflexivity.
+  - inversion Hk as [|? ? [z Hz] Hk']; subst. destruct ct as [c' y']. cbn [fst] in Hz. subst c'. cbn [ainsert] in H.
+    rewrite vltb_int, veqb_int in H. destruct (c <? z).
+    + destruct H as [<-|H]; [left; reflexivity|right; exact H].
+    + destruct (c =? z).
+      * destruct H as [<-|H]; [left; reflexivity|right; right; exact H].
+      * destruct H as [<-|H]; [right; left; reflexivity|]. destruct (IH Hk' H); [left; assumption|right; right; assumption].
+Qed.
+
+Lemma ainsert_nonempty {A} c x (l : list (value * A)) : ainsert c x l <> [].
+Proof. destruct l as [|[c' y] l]; cbn [ainsert]; [discriminate|]. destruct (vltb c c'); [discriminate|]. destruct (veqb c c'); discriminate. Qed.
+
+Lemma ainsert_sorted {A} c x (l : list (value * A)) : int_sorted l -> int_sorted (ainsert (VInt c) x l).
+Proof.
+  induction l as [|ct l IH]; intros Hs.
+  - cbn [ainsert]. apply int_sorted_cons; [exists c; reflexivity|apply int_sorted_nil|intros b []].
+  - pose proof Hs as Hs0. apply int_sorted_cons_inv in Hs. destruct Hs as [[z Hz] [Hl Hlt]].
+    destruct ct as [c' y]. cbn [fst] in Hz. subst c'. cbn [ainsert]. rewrite vltb_int, veqb_int.
+    assert (Hkz : kz (VInt z, y) = z) by reflexivity. rewrite Hkz in Hlt.
+    destruct (Z.ltb_spec c z).
+    + apply int_sorted_cons; [exists c; reflexivity|exact Hs0|]. intros b [<-|Hb]; [cbn; lia|]. specialize (Hlt b Hb). cbn. lia.
+    + destruct (Z.eqb_spec c z).
+      * subst z. apply int_sorted_cons; [exists c; reflexivity|exact Hl|]. intros b Hb. specialize (Hlt b Hb). cbn. lia.
+      * apply int_sorted_cons; [exists z; reflexivity|apply IH; exact Hl|]. intros b Hb. rewrite Hkz.
+        apply ainsert_In in Hb; [|apply Hl]. destruct Hb as [->|Hb]; [cbn; lia|apply Hlt; exact Hb].
+Qed.
+
+Lemma alookup_In {A} c s (l : list (value * A)) : Forall int_key l -> alookup (VInt c) l = Some s -> In (VInt c, s) l.
+Proof.
+  induction l as [|ct l IH]; intros Hk H; [discriminate|].
+  inversion Hk as [|? ? [z Hz] Hk']; subst. destruct ct as [c' y]. cbn [fst] in Hz. subst c'. cbn [alookup] in H.
+  rewrite veqb_int in H. destruct (Z.eqb_spec c z).
+  - injection H as <-. subst z. left. reflexivity.
+  - right. apply IH; assumption.
+Qed.
+
+Lemma In_alookup {A} c s (l : list (value * A)) : int_sorted l -> In (VInt c, s) l -> alookup (VInt c) l = Some s.
+Proof.
+  induction l as [|ct l IH]; intros Hs H; [destruct H|].
+  apply int_sorted_cons_inv in Hs. destruct Hs as [[z Hz] [Hl Hlt]].
+  destruct ct as [c' y]. cbn [fst] in Hz. subst c'. cbn [alookup]. rewrite veqb_int. destruct H as [H|H].
+  - injection H as -> ->. rewrite Z.eqb_refl. reflexivity.
+  - specialize (Hlt _ H). cbn in Hlt. destruct (Z.eqb_spec c z); [lia|]. apply IH; assumption.
+Qed.
+
+(* -- inserting one fresh path into a well-formed (or empty) trie -- *)
+Definition inv (n : nat) (t : trie) : Prop := t = TNode [] \/ wft n t.
+
+Lemma inv_S_node n t : inv (S n) t -> exists l, t = TNode l /\ int_sorted l /\ Forall (fun ct => wft n (snd ct)) l.
+Proof.
+  intros [->|[l [-> [Hs [_ Hc]]]]]; [exists []; split; [reflexivity|split; [apply int_sorted_nil|constructor]]|].
+  exists l. split; [reflexivity|split; assumption].
+Qed.
+
+Lemma tinsert_spec : forall zs v t, inv (length zs) t -> zl zs t = None ->
+  wft (length zs) (tinsert (map VInt zs) v t) /\
+  zl zs (tinsert (map VInt zs) v t) = Some v /\
+  (forall zs', length zs' = length zs -> zs' <> zs -> zl zs' (tinsert (map VInt zs) v t) = zl zs' t).
+Proof.
+  induction zs as [|c zs IH]; intros v t Hinv Hnone.
+  - cbn [length map tinsert]. destruct Hinv as [->|[w ->]]; [|discriminate Hnone].
+    split; [exists v; reflexivity|]. split; [reflexivity|]. intros zs' Hlen Hne. destruct zs'; [congruence|discriminate].
+  - cbn [length] in *. apply inv_S_node in Hinv. destruct Hinv as [l [-> [Hs Hc]]].
+    rewrite zl_cons in Hnone. cbn [map tinsert tchildren].
+    set (sub := match alookup (VInt c) l with Some s => s | None => TNode [] end).
+    assert (Hsub : inv (length zs) sub /\ zl zs sub = None).
+    { unfold sub. destruct (alookup (VInt c) l) as [s|] eqn:E; [|split; [left; reflexivity|apply zl_empty]].
+      split; [|exact Hnone]. right. apply alookup_In in E; [|apply Hs]. rewrite Forall_forall in Hc. apply (Hc _ E). }
+    destruct Hsub as [Hsub1 Hsub2]. destruct (IH v sub Hsub1 Hsub2) as [W [Same Other]].
+    split; [|split].
+    + exists (ainsert (VInt c) (tinsert (map VInt zs) v sub) l). split; [reflexivity|].
+      split; [apply ainsert_sorted; exact Hs|]. split; [apply ainsert_nonempty|].
+      rewrite Forall_forall. intros y Hy. apply ainsert_In in Hy; [|apply Hs]. destruct Hy as [->|Hy]; [exact W|].
+      rewrite Forall_forall in Hc. apply Hc. exact Hy.
+    + rewrite zl_cons, alookup_ainsert by apply Hs. rewrite Z.eqb_refl. exact Same.
+    + intros zs' Hlen Hne. destruct zs' as [|d zs']; [discriminate|]. cbn [length] in Hlen.
+      rewrite !zl_cons, alookup_ainsert by apply Hs. destruct (Z.eqb_spec d c) as [->|Hdc]; [|reflexivity].
+      rewrite Other; [|lia|congruence]. unfold sub. destruct (alookup (VInt c) l); [reflexivity|apply zl_empty].
+Qed.
+
+(* -- building from a duplicate-free list of integer paths -- *)
+Definition vpath (pv : list Z * value) : list value * value := (map VInt (fst pv), snd pv).
+
+Lemma tfold_spec n : forall ps t0, inv n t0 -> NoDup (map fst ps) -> Forall (fun pv => length (fst pv) = n) ps ->
+  (forall pv, In pv ps -> zl (fst pv) t0 = None) ->
+  inv n (fold_left tins (map vpath ps) t0) /\
+  (ps <> [] -> wft n (fold_left tins (map vpath ps) t0)) /\
+  (forall zs v, length zs = n -> (zl zs (fold_left tins (map vpath ps) t0) = Some v <-> In (zs, v) ps \/ zl zs t0 = Some v)).
+Proof.
+  induction ps as [|[p v] ps IH]; intros t0 Hinv Hnd Hlen Hfresh; cbn [map fold_left].
+  - split; [exact Hinv|]. split; [congruence|]. intros zs v _. cbn [In]. tauto.
+  - cbn [map fst] in Hnd. apply NoDup_cons_iff in Hnd. destruct Hnd as [Hnotin Hnd'].
+    pose proof (Forall_inv Hlen) as Hp. pose proof (Forall_inv_tail Hlen) as Hlen'. cbn [fst] in Hp.
+    assert (Hp0 : zl p t0 = None) by (apply (Hfresh (p, v)); left; reflexivity).
+    subst n. destruct (tinsert_spec p v t0 Hinv Hp0) as [W [Same Other]].
+    change (tins t0 (vpath (p, v))) with (tinsert (map VInt p) v t0). set (t1 := tinsert (map VInt p) v t0) in *.
+    assert (Hfresh1 : forall pv, In pv ps -> zl (fst pv) t1 = None).
+    { intros pv Hpv. rewrite Forall_forall in Hlen'. rewrite Other; [apply Hfresh; right; exact Hpv|apply Hlen'; exact Hpv|].
+      intros E. apply Hnotin. rewrite <- E. apply in_map. exact Hpv. }
+    destruct (IH t1 (or_intror W) Hnd' Hlen' Hfresh1) as [I1 [I2 I3]]. split; [exact I1|]. split.
+    + intros _. destruct ps as [|pv ps]; [exact W|]. apply I2. discriminate.
+    + intros zs v' Hzs. rewrite (I3 zs v' Hzs). cbn [In]. destruct (list_eq_dec Z.eq_dec zs p) as [->|Hne].
+      * rewrite Same, Hp0. split.
+        -- intros [H|H]; [tauto|]. injection H as <-. left. left. reflexivity.
+        -- intros [[H|H]|H]; [injection H as <-; right; reflexivity|tauto|discriminate].
+      * rewrite (Other zs Hzs Hne). split; [tauto|]. intros [[H|H]|H]; [injection H as E _; congruence|tauto|tauto].
+Qed.
+
+(* -- integer paths of a well-formed trie -- *)
+Fixpoint zpaths (t : trie) : list (list Z * value) :=
+  match t with
+  | TLeaf v => [([], v)]
+  | TNode l => flat_map (fun ct => map (fun pv => (kz ct :: fst pv, snd pv)) (zpaths (snd ct))) l
+  end.
+
+Lemma paths_zpaths n : forall t, wft n t -> paths t = map vpath (zpaths t).
+Proof.
+  induction n as [|n IH]; intros t H; cbn [wft] in H.
+  - destruct H as [v ->]. reflexivity.
+  - destruct H as [l [-> [[Hk _] [_ Hc]]]]. cbn [paths zpaths].
+    induction Hc as [|ct l Hct Hc IHl]; [reflexivity|]. inversion Hk as [|? ? [c Hc0] Hk']; subst.
+    cbn [flat_map]. rewrite map_app, IHl by exact Hk'. f_equal. rewrite (IH _ Hct), !map_map. apply map_ext.
+    intros pv. unfold vpath, kz. cbn [fst snd map]. rewrite Hc0. reflexivity.
+Qed.
+
+Lemma zpaths_length n : forall t, wft n t -> Forall (fun pv => length (fst pv) = n) (zpaths t).
+Proof.
+  induction n as [|n IH]; intros t H; cbn [wft] in H.
+  - destruct H as [v ->]. repeat constructor.
+  - destruct H as [l [-> [_ [_ Hc]]]]. cbn [zpaths]. rewrite Forall_forall. intros pv Hpv. apply in_flat_map in Hpv.
+    destruct Hpv as [ct [Hct Hpv]]. apply in_map_iff in Hpv. destruct Hpv as [pv' [<- Hpv']]. cbn [fst length].
+    rewrite Forall_forall in Hc. specialize (IH _ (Hc _ Hct)). rewrite Forall_forall in IH. rewrite (IH _ Hpv'). reflexivity.
+Qed.
+
+Lemma zpaths_lookup n : forall t, wft n t -> forall zs v, In (zs, v) (zpaths t) <-> zl zs t = Some v.
+Proof.
+  induction n as [|n IH]; intros t H zs v; cbn [wft] in H.
+  - destruct H as [w ->]. cbn [zpaths In]. destruct zs; cbn; split; intros H; try discriminate; try tauto.
+    + destruct H as [H|[]]. injection H as <-. reflexivity.
+    + injection H as <-. left. reflexivity.
+    + destruct H as [H|[]]. discriminate.
+  - destruct H as [l [-> [Hs [_ Hc]]]]. cbn [zpaths]. rewrite in_flat_map. rewrite Forall_forall in Hc. split.
+    + intros [ct [Hct Hpv]]. apply in_map_iff in Hpv. destruct Hpv as [[zs' v'] [E Hpv']]. cbn [fst snd] in E. injection E as <- <-.
+      destruct Hs as [Hk Hss]. rewrite Forall_forall in Hk. destruct (Hk _ Hct) as [c Hc0]. destruct ct as [c' s]. cbn [fst] in Hc0. subst c'.
+      change (kz (VInt c, s)) with c. rewrite zl_cons, (In_alookup c s l); [|split; [rewrite Forall_forall; exact Hk|exact Hss]|exact Hct].
+      apply (IH s (Hc _ Hct)). exact Hpv'.
+    + intros H. destruct zs as [|c zs]; [discriminate|]. rewrite zl_cons in H. destruct (alookup (VInt c) l) as [s|] eqn:E; [|discriminate].
+      apply alookup_In in E; [|apply Hs]. exists (VInt c, s). split; [exact E|]. apply in_map_iff. exists (zs, v). split; [reflexivity|].
+      apply (IH s (Hc _ E)). exact H.
+Qed.
+
+Lemma NoDup_app_intro {A} (l1 l2 : list A) : NoDup l1 -> NoDup l2 -> (forall x, In x l1 -> In x l2 -> False) -> NoDup (l1 ++ l2).
+Proof.
+  induction 1 as [|x l1 Hx Hnd IH]; intros H2 Hd; [exact H2|]. cbn [app]. constructor.
+  - intros Hin. apply in_app_or in Hin. destruct Hin as [Hin|Hin]; [contradiction|]. apply (Hd x); [left; reflexivity|exact Hin].
+  - apply IH; [exact H2|]. intros y Hy1 Hy2. apply (Hd y); [right; exact Hy1|exact Hy2].
+Qed.
+
+Lemma NoDup_map_inj_in {A B} (f : A -> B) l : (forall x y, In x l -> In y l -> f x = f y -> x = y) -> NoDup l -> NoDup (map f l).
+Proof.
+  intros Hinj. induction 1 as [|x l Hx Hnd IH]; cbn [map]; constructor.
+  - intros Hin. apply in_map_iff in Hin. destruct Hin as [y [E Hy]]. apply Hx.
+    rewrite (Hinj x y); [exact Hy|left; reflexivity|right; exact Hy|symmetry; exact E].
+  - apply IH. intros a b Ha Hb. apply Hinj; right; assumption.
+Qed.
+
+Lemma zpaths_nodup n : forall t, wft n t -> NoDup (map fst (zpaths t)).
+Proof.
+  induction n as [|n IH]; intros t H; cbn [wft] in H.
+  - destruct H as [v ->]. cbn. repeat constructor. intros [].
+  - destruct H as [l [-> [Hs [_ Hc]]]]. cbn [zpaths]. induction Hc as [|ct l Hct Hc IHl]; [constructor|].
+    apply int_sorted_cons_inv in Hs. destruct Hs as [_ [Hs Hlt]]. cbn [flat_map]. rewrite map_app. apply NoDup_app_intro.
+    + rewrite map_map. cbn [fst]. rewrite <- (map_map fst (cons (kz ct))). apply NoDup_map_inj_in; [|apply IH; exact Hct].
+      intros x y _ _ E. injection E as E. exact E.
+    + apply IHl. exact Hs.
+    + intros x Hx1 Hx2. apply in_map_iff in Hx1. destruct Hx1 as [pv1 [<- H1]]. apply in_map_iff in H1. destruct H1 as [pv1' [<- _]].
+      apply in_map_iff in Hx2. destruct Hx2 as [pv2 [E H2]]. apply in_flat_map in H2. destruct H2 as [ct' [Hct' H2]].
+      apply in_map_iff in H2. destruct H2 as [pv2' [<- _]]. cbn [fst] in E. injection E as E _. specialize (Hlt _ Hct'). lia.
+Qed.
+
+(* -- permutations of the rank order -- *)
+Lemma perm_range perm n : Permutation perm (seq 0 n) -> (forall i, In i perm <-> (i < n)%nat) /\ length perm = n.
+Proof.
+  intros HP. split.
+  - intros i. split; intros H.
+    + apply (Permutation_in _ HP) in H. apply in_seq in H. lia.
+    + apply (Permutation_in _ (Permutation_sym HP)). apply in_seq. lia.
+  - rewrite (Permutation_length HP). apply seq_length.
+Qed.
+
+Lemma nth_perm_VInt perm zs : (forall i, In i perm -> (i < length zs)%nat) ->
+  nth_perm perm (map VInt zs) VNone = map VInt (nth_perm perm zs 0).
+Proof.
+  intros H. unfold nth_perm. rewrite map_map. apply map_ext_in. intros i Hi.
+  rewrite (nth_indep _ VNone (VInt 0)) by (rewrite map_length; apply H; exact Hi). apply map_nth.
+Qed.
+
+Lemma nth_perm_inj perm n (p q : list Z) : Permutation perm (seq 0 n) -> length p = n -> length q = n ->
+  nth_perm perm p 0 = nth_perm perm q 0 -> p = q.
+Proof.
+  intros HP Hp Hq E. destruct (perm_range perm n HP) as [Hr _]. apply (nth_ext p q 0 0); [congruence|].
+  intros i Hi. unfold nth_perm in E. assert (Hin : In i perm) by (apply Hr; lia). clear - E Hin.
+  induction perm as [|j perm IH]; [destruct Hin|]. cbn [map] in E. injection E as E1 E2. destruct Hin as [<-|Hin]; [exact E1|apply IH; assumption].
+Qed.
+
+Definition zswz (perm : list nat) (t : trie) : list (list Z * value) :=
+  map (fun pv => (nth_perm perm (fst pv) 0, snd pv)) (zpaths t).
+
+Lemma tswizzle_eq perm n t : Permutation perm (seq 0 n) -> wft n t ->
+  tswizzle perm t = fold_left tins (map vpath (zswz perm t)) (TNode []).
+Proof.
+  intros HP H. unfold tswizzle, zswz. rewrite tbuild_eq, (paths_zpaths n t H), !map_map. f_equal.
+  apply map_ext_in. intros pv Hpv. unfold vpath. cbn [fst snd]. f_equal.
+  pose proof (zpaths_length n t H) as Hlen. rewrite Forall_forall in Hlen. apply nth_perm_VInt.
+  intros i Hi. rewrite (Hlen _ Hpv). apply (perm_range perm n HP). exact Hi.
+Qed.
+
+Lemma tswizzle_spec perm n t : Permutation perm (seq 0 n) -> wft n t ->
+  wft n (tswizzle perm t) /\
+  forall zs v, length zs = n -> (zl zs (tswizzle perm t) = Some v <-> In (zs, v) (zswz perm t)).
+Proof.
+  intros HP H. rewrite (tswizzle_eq perm n t HP H). destruct (perm_range perm n HP) as [_ Hplen].
+  pose proof (zpaths_length n t H) as Hlen. rewrite Forall_forall in Hlen.
+  destruct (tfold_spec n (zswz perm t) (TNode [])) as [_ [I2 I3]].
+  - left. reflexivity.
+  - unfold zswz. rewrite map_map. cbn [fst]. rewrite <- (map_map fst (fun zs => nth_perm perm zs 0)).
+    apply NoDup_map_inj_in; [|apply (zpaths_nodup n); exact H].
+    intros x y Hx Hy E. apply in_map_iff in Hx. destruct Hx as [pvx [<- Hx]]. apply in_map_iff in Hy. destruct Hy as [pvy [<- Hy]].
+    apply (nth_perm_inj perm n); [exact HP|apply Hlen; exact Hx|apply Hlen; exact Hy|exact E].
+  - unfold zswz. rewrite Forall_forall. intros pv Hpv. apply in_map_iff in Hpv. destruct Hpv as [pv' [<- _]]. cbn [fst].
+    unfold nth_perm. rewrite map_length. exact Hplen.
+  - intros pv _. apply zl_empty.
+  - split.
+    + apply I2. unfold zswz. pose proof (wft_paths_nonempty n t H) as Hne. rewrite (paths_zpaths n t H) in Hne.
+      destruct (zpaths t); [exfalso; apply Hne; reflexivity|discriminate].
+    + intros zs v Hzs. rewrite (I3 zs v Hzs), zl_empty. split; [intros [X|X]; [exact X|discriminate]|tauto].
+Qed.
+
+Lemma option_ext {A} (a b : option A) : (forall v, a = Some v <-> b = Some v) -> a = b.
+Proof.
+  intros H. destruct a as [x|]; destruct b as [y|]; try reflexivity.
+  - symmetry. exact (proj1 (H x) eq_refl).
+  - pose proof (proj1 (H x) eq_refl). discriminate.
+  - exact (proj2 (H y) eq_refl).
+Qed.
+
+(* (g, denotation) the swizzled trie holds at the permuted path what the original holds at the path *)
+Theorem tswizzle_lookup perm n t zs : Permutation perm (seq 0 n) -> wft n t -> length zs = n ->
+  tlookup (nth_perm perm (map VInt zs) VNone) (tswizzle perm t) = tlookup (map VInt zs) t.
+Proof.
+  intros HP H Hzs. destruct (perm_range perm n HP) as [Hr Hplen].
+  rewrite nth_perm_VInt by (intros i Hi; rewrite Hzs; apply Hr; exact Hi).
+  fold (zl (nth_perm perm zs 0) (tswizzle perm t)). fold (zl zs t). apply option_ext. intros v.
+  destruct (tswizzle_spec perm n t HP H) as [_ Hsp]. rewrite Hsp by (unfold nth_perm; rewrite map_length; exact Hplen).
+  rewrite <- (zpaths_lookup n t H). unfold zswz. rewrite in_map_iff. split.
+  - intros [[zs' v'] [E Hin]]. cbn [fst snd] in E. injection E as E <-.
+    pose proof (zpaths_length n t H) as Hlen. rewrite Forall_forall in Hlen.
+    rewrite <- (nth_perm_inj perm n zs' zs HP (Hlen _ Hin) Hzs E). exact Hin.
+  - intros Hin. exists (zs, v). split; [reflexivity|exact Hin].
+Qed.
+
+Theorem tswizzle_wft perm n t : Permutation perm (seq 0 n) -> wft n t -> wft n (tswizzle perm t).
+Proof. intros HP H. apply (tswizzle_spec perm n t HP H). Qed.
